@@ -66,6 +66,39 @@ func (r *countingReader) Read(p []byte) (int, error) {
 }
 
 
+// msReader is a diam.MultistreamReader over a byte string delivered as one
+// stream of an association (the path ReadMessage takes on SCTP connections).
+type msReader struct {
+	countingReader
+	stream uint
+}
+
+func (r *msReader) ReadAny(b []byte) (int, uint, error) {
+	n, err := r.Read(b)
+	return n, r.stream, err
+}
+func (r *msReader) ReadStream(b []byte, stream uint) (int, error) { return r.Read(b) }
+func (r *msReader) ReadAtLeast(b []byte, min int, strm uint) (int, uint, error) {
+	if len(b) < min {
+		return 0, r.stream, io.ErrShortBuffer
+	}
+	n := 0
+	for n < min {
+		k, err := r.Read(b[n:])
+		n += k
+		if err != nil {
+			if n > 0 && n < min && err == io.EOF {
+				err = io.ErrUnexpectedEOF
+			}
+			return n, r.stream, err
+		}
+	}
+	return n, r.stream, nil
+}
+func (r *msReader) CurrentStream() uint          { return r.stream }
+func (r *msReader) ResetCurrentStream()          {}
+func (r *msReader) SetCurrentStream(s uint) uint { return r.stream }
+
 // shapes for Unmarshal
 type c03Shape1 struct {
 	OriginHost  string           `avp:"Origin-Host"`
@@ -148,6 +181,36 @@ func decodeOps(c *ev.Case, ctx *lib.Ctx, in []byte, class string) (*diam.Message
 	c.Event("readmessage_calls", 1)
 	if err == nil {
 		c.Event("readmessage_ok", 1)
+	}
+	// the same bytes arriving on a stream of a multi-stream association
+	{
+		var m2 *diam.Message
+		var err2 error
+		mr := &msReader{countingReader: countingReader{b: in}, stream: uint(len(in) % 7)}
+		c.Input("ReadMessage-multistream/"+ctx.Name, in)
+		debug.SetMaxStack(stackCap(len(in)))
+		runtime.ReadMemStats(&ms0)
+		p, bad := guard(func() { m2, err2 = diam.ReadMessage(mr, ctx.Parser) })
+		runtime.ReadMemStats(&ms1)
+		debug.SetMaxStack(goDefaultMaxStack)
+		if bad {
+			c.Fail(ev.Sig{"op": "panic", "call": "ReadMessage-multistream", "site": panicSite(p)}, in, nil, "ReadMessage from a multi-stream reader panicked (%s, dict %s): %s", class, ctx.Name, p)
+			return nil, false
+		}
+		if alloc := ms1.TotalAlloc - ms0.TotalAlloc; alloc > bound {
+			c.Fail(ev.Sig{"op": "over-allocation", "call": "ReadMessage-multistream"}, in[:min(len(in), 64)], map[string]any{"supplied": len(in), "allocated": alloc, "bound": bound},
+				"ReadMessage from a multi-stream reader allocated %d bytes for %d supplied bytes (bound %d), err=%v (%s)", alloc, len(in), bound, err2, class)
+			return nil, false
+		}
+		if (err == nil) != (err2 == nil) {
+			c.Fail(ev.Sig{"op": "multistream-differs", "call": "ReadMessage-multistream"}, in, nil, "the same bytes: err=%v from a plain reader, err=%v from a multi-stream reader (%s)", err, err2, class)
+			return nil, false
+		}
+		if err == nil && len(m2.AVP) != len(m.AVP) {
+			c.Fail(ev.Sig{"op": "multistream-differs", "call": "ReadMessage-multistream"}, in, nil, "the same bytes: %d AVPs from a plain reader, %d from a multi-stream reader (%s)", len(m.AVP), len(m2.AVP), class)
+			return nil, false
+		}
+		c.Event("readmessage_multistream_calls", 1)
 	}
 	// other decoders on the same bytes
 	c.Input("DecodeHeader", in)
